@@ -228,6 +228,16 @@ def check_fixed_instantiate(ctx, it):
         ctx.ob("R06.5", "instantiate/total is the sum of the listed weights", good_sum, sites=[cw[0].site],
                detail="CONFIG.total_weight is %s, not the sum of voters[i].weight" % show(tw)[:160], sample={"total": show(tw)[:160]})
         if not vw:
+            # an iteration over the summed list that stores no voter: that entry's weight is in the total but nobody holds it
+            for ent in [x for x in p.effects if x.kind == "loop_enter"]:
+                if lst is None or not any(v == lst for v in ent.value.values()):
+                    continue
+                took = any(c[0][0] == "calli" and c[0][1] == "next" and c[1] == "Some" and c[0][2][0][0] == "loopvar" and c[0][2][0][1] == ent.name
+                           and c[0][2][0][3] == 0 for c in p.conds)
+                if took:
+                    ctx.ob("R06.5", "instantiate/every listed voter is stored", False, sites=[ent.site],
+                           detail="a successful instantiate path takes an entry of the voter list and stores no voter for it (skipped "
+                                  "entry), while total_weight sums the whole list")
             continue
         for e in vw:
             prob = None
